@@ -193,6 +193,35 @@ func c19Sweep(p *core.Prog, r *core.Report) {
 		}
 		sort.Strings(ks)
 		r.Check(got["inbound"] && got["outbound"] && got["relay"], "C19-R2", fname(h), "pending = inbound or outbound or relayed calls", p.Pos(h.Pos()), "covers "+strings.Join(ks, ","), "hasPendingCalls covers only "+strings.Join(ks, ","))
+		// "no pending calls" is answered only after all three were looked at:
+		// every return other than the constant true has passed the inbound
+		// count, the outbound count and the relay's canClose
+		notTrue := func(i ssa.Instruction, resolve func(ssa.Value) ssa.Value) bool {
+			ret, isRet := i.(*ssa.Return)
+			if !isRet {
+				return false
+			}
+			// `return a || b || c` returns a phi that is the constant true on
+			// the short-circuit edges: judge the value the path arrives with
+			b, isB := core.ConstBool(resolve(core.ReturnValues(ret)[0]))
+			return !isB || !b
+		}
+		how := ""
+		for _, what := range []string{"inbound", "outbound", "relay"} {
+			what := what
+			res := core.ReachPhiSensitiveV(h, nil, notTrue, func(i ssa.Instruction) bool {
+				if what == "relay" {
+					_, is := core.IsCall(i, "Relayer.canClose")
+					return is
+				}
+				c, is := core.IsCall(i, "messageExchangeSet.count")
+				return is && recvFieldName(c) == what
+			})
+			if res.Found {
+				how = "a path answers (possibly 'no pending calls') without looking at the " + what + " calls: " + p.TrailString(res)
+			}
+		}
+		r.Check(how == "", "C19-R2", fname(h), "all three kinds of pending calls are consulted before answering 'none'", p.Pos(h.Pos()), "every non-true return passes inbound.count, outbound.count and relay.canClose", how)
 	}
 }
 
@@ -338,6 +367,69 @@ func c19Health(p *core.Prog, r *core.Report) {
 	})
 	r.Check(doneSel != nil, "C19-R3", fn, "loop waits on tick or health-check context", p.Pos(f.Pos()), "select has the context Done() arm", "health loop cannot be cancelled")
 	_ = types.Typ
+	// a failed ping leaves the loop without being counted only when the
+	// health checks were cancelled (error code Cancelled - a ping that merely
+	// timed out is a failure) or the connection is no longer usable
+	pings := core.CallsIn(f, "Connection.ping")
+	if counter != nil && len(pings) == 1 {
+		inc, _ := counter.(*ssa.BinOp)
+		errV := pings[0].Value()
+		cancelled, _ := constVal(p, "ErrCodeCancelled")
+		accepted := func(pred, to *ssa.BasicBlock) bool {
+			ifi, ok := pred.Instrs[len(pred.Instrs)-1].(*ssa.If)
+			if !ok || pred.Succs[0] != to {
+				return false
+			}
+			bo, ok := ifi.Cond.(*ssa.BinOp)
+			if !ok || bo.Op != token.EQL {
+				return false
+			}
+			if callResult(bo.X, "GetSystemErrorCode") != nil {
+				k, isK := core.ConstInt(bo.Y)
+				return isK && k == cancelled
+			}
+			if bo.X == ssa.Value(errV) && loadsGlobal(bo.Y, "ErrInvalidConnectionState") {
+				return true
+			}
+			return false
+		}
+		var loops []*core.Loop
+		for _, l := range core.Loops(f) {
+			loops = append(loops, l)
+		}
+		isBack := func(a, b *ssa.BasicBlock) bool {
+			for _, l := range loops {
+				if l.Header == b && l.Blocks[a] {
+					return true
+				}
+			}
+			return false
+		}
+		ok, how := true, ""
+		for _, b := range f.Blocks {
+			if !factsAt(b).nilCmp(func(v ssa.Value) bool { return v == ssa.Value(errV) }, false) || len(b.Preds) != 1 {
+				continue
+			}
+			// b: first block of the failure arm
+			res := core.ReachAvoiding(f, b.Instrs[0], func(i ssa.Instruction) bool {
+				ret, isRet := i.(*ssa.Return)
+				if !isRet {
+					return false
+				}
+				for _, pr := range ret.Block().Preds {
+					if !accepted(pr, ret.Block()) {
+						return true
+					}
+				}
+				return false
+			}, func(i ssa.Instruction) bool { return inc != nil && i == ssa.Instruction(inc) }, isBack)
+			if res.Found {
+				ok, how = false, "a failed ping can end the health loop without being counted on a condition other than 'checks cancelled' / 'connection state invalid' (e.g. a ping timeout): "+p.TrailString(res)
+			}
+			break
+		}
+		r.Check(ok, "C19-R3", fn, "uncounted exit after a failed ping only when cancelled or the connection is unusable", p.Pos(pings[0].Pos()), "early returns on the failure arm are the true arms of GetSystemErrorCode(err) == ErrCodeCancelled / err == ErrInvalidConnectionState", how)
+	}
 }
 
 func descV(v ssa.Value) string { return desc(v) }
